@@ -1532,11 +1532,12 @@ CaseX86M_GPB_MulDiv:
         const Imm& imm0 = o0.as<Imm>();
         const Imm& imm1 = o1.as<Imm>();
 
-        if (imm0.value() > 0xFFFFu || imm1.value() > 0xFFFFFFFFu)
+        // The selector is an unsigned 16-bit value, the offset a (signed or unsigned) 32-bit value.
+        if (imm0.value_as<uint64_t>() > 0xFFFFu || !(Support::is_int_n<32>(imm1.value()) || Support::is_uint_n<32>(imm1.value())))
           goto InvalidImmediate;
 
         opcode = alt_opcode_of(inst_info);
-        imm_value = imm1.value() | (imm0.value() << 32);
+        imm_value = int64_t((imm1.value_as<uint64_t>() & 0xFFFFFFFFu) | (imm0.value_as<uint64_t>() << 32));
         imm_size = 6;
         goto EmitX86Op;
       }
